@@ -838,6 +838,7 @@ def main(run):
     maxrel: dict = {}
 
     def explore(fn, cs, *, key, **kw):
+        kw.setdefault("chunksize", 1)  # cases take 0.05-1 s each: no need to batch them
         res = run.explore(fn, cs, collect=True, **kw)
         maxrel[key] = max([r.get("maxrel", 0.0) for _, r in res] + [maxrel.get(key, 0.0)])
 
